@@ -30,7 +30,7 @@ from harness.gradworld import World, MAPS, CASES
 THEOREMS = [
     'Adj.misfit_expansion', 'Adj.gradient_is_derivative', 'Adj.jtvec_adjoint',
     'Adj.jvec_is_derivative', 'Adj.resolvent', 'Grad.collect_stack_adjoint',
-    'Grad.toVolX_adjoint',
+    'Grad.toVolX_adjoint', 'Grad.avgX_interior',
 ]
 
 
